@@ -230,7 +230,9 @@ def run(ctx):
                           {"a": "rrtp", "s": 2, "w": 100, "id": 1, "len": 30, "shape": 0, "tw": 100, "fail": False},
                           {"a": "rrtp", "s": 2, "w": 103, "id": 2, "len": 30, "shape": 0, "tw": 103, "fail": False},
                           {"a": "sloww", "ms": rng.choice([25, 40])}, {"a": "wait", "ms": 6},
-                          {"a": "close"}, {"a": "close"}]})
+                          {"a": "par", "par": [{"a": "close"}, {"a": "seq", "rep": 1, "seq": [{"a": "wait", "ms": 2}, {"a": "close"}]},
+                                               {"a": "seq", "rep": 1, "seq": [{"a": "wait", "ms": 4}, {"a": "close"}]}]},
+                          {"a": "close"}]})
     for i in range(0, len(racing), 60):
         vlib.run_batch(ctx, tag="G-close-racing-%d" % (i // 60), scripts=racing[i:i + 60], pkg_rel="", pkgname="interceptor_test",
                        files=["zz_verif_univ_test.go", "common:zz_verif_pkt_test.go.tpl"], test="TestVerifUnivExec",
